@@ -3,7 +3,9 @@
 package c06
 
 import (
+	"bufio"
 	"bytes"
+	"errors"
 	"fmt"
 	"strconv"
 	"strings"
@@ -20,7 +22,7 @@ import (
 
 func TestMain(m *testing.M) {
 	kit.Register("history", historyOracle)
-	kit.Describe("case = (configuration, pool of 2..6 documents, operation list over one long-lived Markdown value: cI Convert, pI Parse+Render keeping the tree, rI render the kept tree again, xI render a tree parsed by another fresh instance, kI Parse with a caller-supplied fresh parser.Context, bI Convert on a fresh instance); oracle: every output for document i equals the canonical output computed by a brand-new instance before the history starts; non-trivial = >= 3 operations including a re-render of a tree that contains an extension node, or two different documents of a definer/user pair (references, heading ids, footnotes, quotes, tables, fences); distinct by hash of the case",
+	kit.Describe("case = (configuration, pool of 2..6 documents, operation list over one long-lived Markdown value: cI Convert, fI / gI Convert into a destination that fails at once / after 40 bytes, pI Parse+Render keeping the tree, rI render the kept tree again, xI render a tree parsed by another fresh instance, kI Parse with a caller-supplied fresh parser.Context, bI Convert on a fresh instance); oracle: every output for document i equals the canonical output computed by a brand-new instance before the history starts; non-trivial = >= 3 operations including a re-render of a tree that contains an extension node, or two different documents of a definer/user pair (references, heading ids, footnotes, quotes, tables, fences); distinct by hash of the case",
 		"instances are created fresh for every case")
 	kit.Main(m, "C06")
 }
@@ -75,6 +77,15 @@ func historyOracle(c *kit.Case) error {
 			err = a.Renderer().Render(&b, docs[i], t)
 		case 'b':
 			err = cfg.Fresh().Convert(docs[i], &b)
+		case 'f', 'g':
+			// a conversion whose destination fails (at once / after 40 bytes, behind a small caller buffer so that
+			// node renderers meet the failure in the middle of the walk): it is part of the history like any other
+			k := 0
+			if op[0] == 'g' {
+				k = 40
+			}
+			_ = a.Convert(docs[i], bufio.NewWriterSize(&failAfter{left: k}, 16))
+			continue
 		default:
 			continue
 		}
@@ -86,6 +97,18 @@ func historyOracle(c *kit.Case) error {
 		}
 	}
 	return nil
+}
+
+type failAfter struct{ left int }
+
+func (w *failAfter) Write(p []byte) (int, error) {
+	if len(p) <= w.left {
+		w.left -= len(p)
+		return len(p), nil
+	}
+	n := w.left
+	w.left = 0
+	return n, errors.New("destination failed")
 }
 
 var pairs = [][2]string{
@@ -120,7 +143,12 @@ func roleDoc(t *rapid.T, frag string, label string) []byte {
 var extMarkers = []string{"<table", "footnote", "<del", "<input", "<dl", "<sup"}
 
 func drawDoc(t *rapid.T, label string) []byte {
-	switch rapid.IntRange(0, 3).Draw(t, label+"k") {
+	switch rapid.IntRange(0, 4).Draw(t, label+"k") {
+	case 4:
+		if rapid.Bool().Draw(t, label+"long") {
+			return gen.LongDoc(t, gen.Any, label+"l") // size thresholds: pooled or recycled buffers keep what a long document left
+		}
+		return gen.FootnoteDoc(t, gen.Any, label+"fn")
 	case 0:
 		return gen.Soup(t, gen.Any, 20, label+"s")
 	case 1:
@@ -164,7 +192,7 @@ func TestHistory(t *testing.T) {
 		nops := rapid.IntRange(2, 14).Draw(t, "nops")
 		var ops []string
 		for k := 0; k < nops; k++ {
-			op := rapid.SampledFrom([]string{"c", "c", "c", "p", "p", "r", "r", "r", "x", "k", "b"}).Draw(t, "op")
+			op := rapid.SampledFrom([]string{"c", "c", "c", "p", "p", "r", "r", "r", "x", "k", "b", "f", "g"}).Draw(t, "op")
 			i := rapid.IntRange(0, nd-1).Draw(t, "doc")
 			if paired && rapid.IntRange(0, 2).Draw(t, "bias") == 0 {
 				i = rapid.IntRange(0, 1).Draw(t, "pdoc")
